@@ -22,7 +22,7 @@ clause → theorem
 * exactly registered path wins over any mount ............................ `C07.exact_wins`, `C07.exact_wins_history`
 * a mount receives exactly prefix / prefix + "/" + rest .................. `C07.mount_matches_iff`, `C07.get_mount_sound`
 * the mounted handler strips only the prefix ............................. `C07.pointer_for_strips_only_prefix`, `C07.relative_pointer_strips_only_prefix`
-* struct segments = RFC 6901 tokens, any depth (stack and spill branch) .. `C07.segments_rfc6901`, `C07.struct_segments`
+* struct segments = RFC 6901 tokens, any depth (stack and spill branch) .. `C07.segments_rfc6901`, `C07.struct_segments`, `C07.struct_segments_root`
 * `replace("~1","/").replace("~0","~")` = unescape on well-formed tokens . `C07.replace_is_unescape` (`~01` regression: `C07.tilde01`)
 * mounted struct: body gate, tokens handed to `repe_handle`, derive addressing `C07.mounted_struct_call`, `C07.derived_addresses_segments`, `C07.derived_read_after_write`, `C07.struct_and_adapter_gates`
 * composition with C03 (`found` of `route`/`respond` = this `Router.get`) .. `C07.found_iff_registered`, `C07.served_through_router`
@@ -393,6 +393,15 @@ theorem struct_segments (p rest : Str) (hp : p ≠ []) (h : EscWF rest) (hr : re
       have hs : stripPrefix p (p ++ '/' :: r) = some ('/' :: r) := (stripPrefix_eq_some _ _ _).mpr rfl
       simp [hp, hne, hs]
   rw [this, Option.map_some, segments_rfc6901 rest h]
+
+/-- … and for a struct mounted at the empty root (`""` or `"/"`): the whole request path is the
+pointer. -/
+theorem struct_segments_root (path : Str) (h : EscWF path) :
+    (relativePointer [] path).map (dispatchSegments Gen.routerFacts.stackSegs) = some (rfc6901 path) := by
+  simp [relativePointer, segments_rfc6901 path h]
+
+example : normStructRoot "/".toList = [] ∧ normStructRoot [] = [] ∧
+    (relativePointer [] "/a/b".toList).map (dispatchSegments 16) = some ["a".toList, "b".toList] := by decide
 
 /-- non-vacuity and the named corner cases: "" ↦ [], "/" ↦ [""], empty segments, escapes, and a
 20-segment path (spill branch) -/
